@@ -1,12 +1,13 @@
 """C05 - implicit matrix terms and the explicit gradient/mean/divergence chain agree."""
 import opscheck
+import opsdrive
 
 CLAUSES = ["C05_Diffusion", "C05_Central", "C05_Upwind", "C05_UpwindAlt", "C05_TvdZero", "C05_TvdUnit"]
 
 
 def run(tier, seed):
     return opscheck.run_property(
-        "C05", tier, seed, design=opscheck.design_ops("C05", None), clauses_for=lambda cfg: CLAUSES, n_quick=18, n_thorough=150,
+        "C05", tier, seed, design=opscheck.design_ops("C05", None), clauses_for=lambda cfg: CLAUSES, extra_configs=opsdrive.systematic_configs(), n_quick=18, n_thorough=150,
         gen_kw=[{}, {"nmax": 2}, {"uniform": True, "nmin": 3}], extra_conform=["grad", "linmean", "upmean", "divu", "tvd1"],
         rule="9 grid classes x seeded spacings / coefficient fields / velocity sign patterns; each episode compares "
              "the builder matrix with the explicit chain applied to the full unit basis (ghost cells included); "
